@@ -296,6 +296,8 @@ def run(prog, tier):
     for f, cont, el in setters:
         check_setter(prog, res, f, cont, el)
     column_rules(prog, res)
+    import codec_rules as _CR
+    _CR.passthrough_index_rule(prog, res)
     # "every other frame is unchanged" and "exactly one column per frame" need stored frames that
     # share nothing with each other or with the caller: the C08 ownership rule, evaluated here too
     import p_c08
